@@ -102,7 +102,11 @@ impl Prop for C03 {
     fn lower(c: &CFile) -> Input {
         let mut classes = Vec::new();
         let nontrivial = classify_file(c, &mut classes);
-        Input { wire: write(c).bytes, expect: c.abstract_(), classes, nontrivial }
+        let w = write(c);
+        if w.msgs.iter().any(|m| m.crc_width == 1) {
+            classes.push("enc:one-byte-crc-field".into());
+        }
+        Input { wire: w.bytes, expect: c.abstract_(), classes, nontrivial }
     }
 
     fn eval(i: &Input, obs: &mut Obs) -> Result<(), Fail> {
